@@ -11,6 +11,7 @@ import CookModel.Lemmas.RoundtripInter
 import CookModel.Lemmas.RoundtripStepX
 import CookModel.Lemmas.RoundtripBlock
 import CookModel.Lemmas.RoundtripInput
+import CookModel.Lemmas.RoundtripDoc
 /-
   C01  Printing a recipe as Cooklang and parsing it returns that recipe.
 
@@ -735,5 +736,79 @@ theorem C01_well_spelled_next_none (cs : CharSpec) (a : List Tok) :
 /-- example: `@salt` is well spelled before `,` but not before `y` (the word would go on) -/
 example : wellSpelledNext toyCharSpec (some ',') (spellShortIngredient C01_exSalt) = true ∧
     wellSpelledNext toyCharSpec (some 'y') (spellShortIngredient C01_exSalt) = false := by decide
+
+/-! ### the document level: several blocks, multi-line steps -/
+
+/-- The block splitter on a document.  A token stream made of leading blank lines (`blankLinesOK`:
+    blank tokens ending with a newline) and then blocks, each followed by its separator (`docToks`),
+    where every block is a single `>>` / `=` line or a step of one or more lines none of which is
+    blank and none of which (after the first) starts with `>>` or `=` (`blockShape`), two blocks are
+    separated by a newline and at least one blank line — `\n\n`, or blank lines with spaces and
+    comments — and the last block is followed by nothing or a newline and blank material (`docOK`),
+    is split by `next_block` (`allBlocks`) into exactly those blocks, in order: nothing of a block
+    is lost, no separator token ends up in a block, two blocks are never merged. -/
+theorem C01_blocks_split (pre : List Tok) (ds : List (List Tok × List Tok)) (hpre : blankLinesOK pre = true)
+    (h : docOK ds = true) :
+    allBlocks ((pre ++ docToks ds).length + 1) (pre ++ docToks ds) = ds.map (·.1) :=
+  rtd_allBlocks_doc ds h pre (rtd_blankLinesOK_facts pre hpre)
+
+/-- Document level of the round trip.  A recipe text printed from `pre ++ docSpec doc` — leading
+    blank lines, then the items of `doc`: steps (`SegX` segment lists as in `C01_step_compose`,
+    on one or several lines: a text run may contain newline tokens as long as no line of the step
+    is blank or starts with `>>` / `=`), section lines, `>>` metadata lines, each satisfying the side
+    conditions of its layer (`DocItem.ok`), separated as in `C01_blocks_split` (`sepsOK`) — when
+    the printed token list is well spelled and the text has no front-matter fence, is read by the
+    whole pull parser (lexer, block splitter, `parse_block` on every block) as follows: the
+    splitter produces exactly one block per item, whose tokens spell the item; the event list is
+    the concatenation, in order, of the events of the items (`DocItemEvs`: `start step`, one event
+    per segment, `stop step`; one `section` event; one `metadata` event); no error, no warning, no
+    panic.  A soft line break inside a step shows as one space in the text event
+    (`C01_soft_break_is_space`).  This discharges the `partial` of `C01_input_step_line_partial`
+    for several blocks and multi-line steps; what remains outside is front matter (`---`) as the
+    metadata carrier. -/
+theorem C01_input_blocks {α : Type} [Arith α] (cs : CharSpec) (ext : Ext) (pre : List Tok)
+    (doc : List (DocItem × List Tok)) (hpre : blankLinesOK pre = true)
+    (hok : ∀ d ∈ doc, d.1.ok cs ext = true) (hseps : sepsOK (doc.map (·.2)) = true)
+    (hw : WellSpelled cs (pre ++ docSpec doc))
+    (hfm : parseFrontmatter cs (render (pre ++ docSpec doc)) = none) :
+    ∃ (blocks : List (List Tok)) (evss : List (List (Ev α))) (arr : Array (Ev α)),
+      allBlocks ((lex cs (render (pre ++ docSpec doc))).length + 1) (lex cs (render (pre ++ docSpec doc))) = blocks ∧
+      All2 (fun b (d : DocItem × List Tok) => Spells b d.1.spell) blocks doc ∧
+      pullEvents (α := α) cs ext (render (pre ++ docSpec doc)) = (arr, none) ∧
+      arr.toList = evss.flatten ∧
+      All2 (fun (d : DocItem × List Tok) evs => DocItemEvs cs d.1 evs) doc evss :=
+  rtd_pullEvents_doc cs ext pre doc hpre hok hseps hw hfm
+
+/-- a line break inside a step is shown as one space by `BlockParser::text` (the text of a run
+    is the concatenation of `vis` of its tokens, `SegXEv`) -/
+theorem C01_soft_break_is_space (t : Tok) (hk : t.kind = .newline) (hne : t.text ≠ []) : vis t = [' '] := by
+  simp [vis, hk, hne]
+
+/-! example: leading blank line, `>> prep time: 1 h 30 min`, `\n\n`, `== Main course == `, a blank line
+    with a comment, then the two-line step of `C01_exStepX`, a final newline -/
+def C01_nl : Tok := tk .newline ['\n']
+def C01_exDoc : List (DocItem × List Tok) :=
+  [(.metaLine [tk .word "prep".toList, tk .ws [' '], tk .word "time".toList]
+      [tk .int ['1'], tk .ws [' '], tk .word ['h'], tk .ws [' '], tk .int ['3', '0'], tk .ws [' '], tk .word "min".toList]
+      { a := [tk .ws [' ']], c := [tk .ws [' ']] }, [C01_nl, C01_nl]),
+   (.sectionLine (some [tk .word "Main".toList, tk .ws [' '], tk .word "course".toList]) C01_exSPad,
+      [C01_nl, tk .ws [' '], tk .lineComment "-- c".toList, C01_nl]),
+   (.step C01_exStepX, [C01_nl])]
+def C01_exDocPre : List Tok := [tk .ws [' '], C01_nl]
+
+example : blankLinesOK C01_exDocPre = true ∧ (∀ d ∈ C01_exDoc, d.1.ok toyCharSpec C01_timerExt = true) ∧
+    sepsOK (C01_exDoc.map (·.2)) = true := by decide
+example : WellSpelled toyCharSpec (C01_exDocPre ++ docSpec C01_exDoc) := by decide
+example : (parseFrontmatter toyCharSpec (render (C01_exDocPre ++ docSpec C01_exDoc))).isNone = true := by decide
+/-- the step of the example has two lines -/
+example : ((DocItem.step C01_exStepX).spell.filter (fun t => t.kind == .newline)).length = 1 := by decide
+/-- the conditions are needed: a blank line inside a step, a continuation line starting with `=`,
+    a single newline between two steps are rejected (the splitter would cut or merge differently) -/
+example : stepShape [tk .word ['a'], C01_nl, C01_nl, tk .word ['b']] = false := by decide
+example : stepShape [tk .word ['a'], C01_nl, tk .eq ['='], tk .word ['b']] = false := by decide
+example : stepShape [tk .word ['a'], C01_nl, tk .ws [' '], tk .eq ['='], tk .word ['b']] = true := by decide
+example : sepsOK [[C01_nl], []] = false ∧ sepsOK [[C01_nl, C01_nl], []] = true := by decide
+example : allBlocks 10 [⟨.word, ['a'], 0⟩, ⟨.newline, ['\n'], 1⟩, ⟨.word, ['b'], 2⟩] =
+    [[⟨.word, ['a'], 0⟩, ⟨.newline, ['\n'], 1⟩, ⟨.word, ['b'], 2⟩]] := by decide
 
 end Cook
